@@ -13,6 +13,7 @@ import Caches.Lemmas.ArcTruth
 import Caches.Lemmas.CohWt
 import Caches.Lemmas.CohTwoQ
 import Caches.Lemmas.CohArc
+import Caches.Lemmas.Reach
 set_option linter.unusedSectionVars false
 set_option linter.unusedVariables false
 namespace C12
@@ -130,6 +131,45 @@ theorem arc_never_evicted (a : Arc κ ν) (k : κ) (v : ν) (h : a.Inv) (r : Put
   rcases ht.result with ⟨h1, _⟩ | ⟨old, h1, _⟩
   · exact Or.inl h1
   · exact Or.inr ⟨old, h1⟩
+
+/-! ## every history: the claim holds for the next `put` at every reachable state -/
+
+theorem slru_claim_every_history (p q : Nat) (s0 : Slru κ ν) (hc : Slru.new p q = some s0) (ops : List (SlruOp κ ν)) :
+    ∃ s, runOps Slru.step s0 ops = .ok s ∧
+      ∀ k v, ∃ r s' d, s.put k v = .ok (r, s', d) ∧ PutTruth s.ents s'.ents k v r ∧ (k, v) ∈ s'.ents := by
+  obtain ⟨s, hr, hi⟩ := runOps_inv Slru.step Slru.Inv Slru.step_inv ops s0 (Slru.inv_new p q s0 hc).1
+  exact ⟨s, hr, fun k v => slru_put_claim s k v hi⟩
+
+theorem twoq_claim_every_history (size : Nat) (rr gr : RatioClass) (rs es : Nat) (q0 : TwoQ κ ν)
+    (hc : TwoQ.new size rr gr rs es = .ok q0) (ops : List (CacheOp κ ν)) :
+    ∃ q, runOps TwoQ.step q0 ops = .ok q ∧
+      ∀ k v, ∃ r q' d, q.put k v = .ok (r, q', d) ∧
+        PutTruth (q.recent.items ++ (q.frequent.items ++ q.ghost.items))
+                 (q'.recent.items ++ (q'.frequent.items ++ q'.ghost.items)) k v r ∧ (k, v) ∈ q'.ents := by
+  obtain ⟨q, hr, hi⟩ := runOps_inv TwoQ.step TwoQ.Inv TwoQ.step_inv ops q0 (TwoQ.inv_new size rr gr rs es q0 hc)
+  exact ⟨q, hr, fun k v => twoq_put_claim q k v hi⟩
+
+theorem arc_claim_every_history (size : Nat) (a0 : Arc κ ν) (hc : Arc.new size = some a0) (ops : List (CacheOp κ ν)) :
+    ∃ a, runOps Arc.step a0 ops = .ok a ∧
+      ∀ k v, ∃ r a' d, a.put k v = .ok (r, a', d) ∧ ArcSpec.ArcTruth (C09.view a) (C09.view a') k v r := by
+  obtain ⟨a, hr, hi⟩ := runOps_inv Arc.step Arc.Inv Arc.step_inv ops a0 (Arc.inv_new size a0 hc).1
+  exact ⟨a, hr, fun k v => arc_put_claim a k v hi⟩
+
+theorem wtinylfu_claim_every_history (kh : κ → UInt64) (c0 : WTinyLfu κ ν) (h0 : c0.Inv) (ops : List (CacheOp κ ν)) :
+    ∃ c, runOps (WTinyLfu.step kh) c0 ops = .ok c ∧
+      ∀ k v, ∃ r c' d, c.put kh k v = .ok (r, c', d) ∧ PutTruth c.ents c'.ents k v r ∧ (k, v) ∈ c'.ents := by
+  obtain ⟨c, hr, hi⟩ := runOps_inv (WTinyLfu.step kh) WTinyLfu.Inv (WTinyLfu.step_inv kh) ops c0 h0
+  exact ⟨c, hr, fun k v => wtinylfu_put_claim c kh k v hi⟩
+
+theorem rawlru_claim_every_history (cap : Nat) (cb : Bool) (c0 : RawLru κ ν) (hc : RawLru.new cap cb = some c0)
+    (ops : List (RawOp κ ν)) :
+    ∃ c, runOps RawLru.step c0 ops = .ok c ∧
+      (c.cap ≠ 0 → ∀ k v, ∃ c' r e, c.put k v = .ok (c', r, e) ∧ PutTruth c.items c'.items k v r ∧ c'.peek k = some v) ∧
+      (c.cap = 0 → ∀ k v, c.put k v = .ok (c, .evicted k v, {})) := by
+  obtain ⟨c, hr, hi⟩ := runOps_inv RawLru.step RawLru.Inv RawLru.step_inv ops c0 (RawLru.inv_new cap cb c0 hc)
+  refine ⟨c, hr, fun h0 k v => rawlru_put_claim c k v hi h0, fun h0 k v => ?_⟩
+  have : c.items = [] := List.eq_nil_of_length_eq_zero (by have := hi.bound; omega)
+  exact put_cap_zero c k v (by rw [this]; rfl) h0
 
 /-- non-vacuity: a full 2Q whose ghost list overflows reports the ghost that was pushed out -/
 example : (TwoQSpec.put [(3, 30)] [(2, 20)] [(1, 10)] 2 1 1 4 (40 : Nat)).2.2.2 = PutResult.evicted 1 10 := by decide
